@@ -41,7 +41,8 @@ NUMFMTS = ["repr", "g17", "E15", "e7", "int"]
 COORDS = ["cart", "polar", "both"]
 COLPERMS = ["canonical", "reversed", "random"]
 CSV_MODES = ["ext:.csv", "ext:.txt", "ext:.CSV", "fmt:csv", "fmt:.CSV", "noext"]
-NCLASS = ["2", "3-10", "11-60"]
+NCLASS = ["1", "2", "3-10", "11-60"]
+NCLASS_P = [0.06, 0.14, 0.4, 0.4]
 
 CSV_DIMS = {
     "coords": COORDS,
@@ -123,6 +124,7 @@ def random_csv_config(rng, pinned=None):
         cfg = {}
         for d, vals in CSV_DIMS.items():
             cfg[d] = vals[int(rng.integers(0, len(vals)))]
+        cfg["nclass"] = NCLASS[int(rng.choice(len(NCLASS), p=NCLASS_P))]
         if pinned:
             cfg.update(pinned)
         if csv_valid(cfg):
@@ -199,6 +201,8 @@ def complete_pairwise(configs, rng, max_extra=4000):
 # spectra
 # ------------------------------------------------------------------------------------------------
 def n_from_class(rng, nclass):
+    if nclass == "1":
+        return 1
     if nclass == "2":
         return 2
     if nclass == "3-10":
@@ -370,6 +374,7 @@ def random_df_config(rng):
         cfg = {d: CSV_DIMS[d][int(rng.integers(0, len(CSV_DIMS[d])))] for d in
                ("coords", "f", "re", "im", "mag", "ph", "suffix", "case", "neg_re", "neg_im", "neg_ph", "order", "nsweeps", "colperm", "nclass")}
         cfg["layout"] = "df"
+        cfg["nclass"] = NCLASS[int(rng.choice(len(NCLASS), p=NCLASS_P))]
         cfg["degrees"] = bool(rng.random() < 0.5)
         cfg["emit"] = bool(rng.random() < 0.35)
         cfg["numfmt"] = "repr"
@@ -441,7 +446,7 @@ def random_inst_config(rng, layout):
     spec = INST[layout]
     return {"layout": layout, "variant": spec["variants"][int(rng.integers(0, len(spec["variants"])))],
             "order": ORDERS[int(rng.integers(0, 2))], "nsweeps": spec["sweeps"][int(rng.integers(0, len(spec["sweeps"])))],
-            "mode": INST_MODES[int(rng.integers(0, len(INST_MODES)))], "nclass": NCLASS[int(rng.integers(0, 3))],
+            "mode": INST_MODES[int(rng.integers(0, len(INST_MODES)))], "nclass": NCLASS[int(rng.choice(len(NCLASS), p=NCLASS_P))],
             "seed": [int(x) for x in rng.integers(0, 2**31, size=2)], "cli": bool(rng.random() < 0.15)}
 
 
